@@ -68,7 +68,7 @@ def parseFlags (s : String) : Option Flags :=
 def Err.show : Err → String
   | .duplicateKey => "DuplicateKey" | .cantMoveRoot => "CantMoveRoot" | .keyError => "KeyError"
   | .noFinalPath => "NoFinalPath" | .malformed => "MalformedTransform" | .valueError => "ValueError"
-  | .isADirectory => "IsADirectoryError"
+  | .isADirectory => "IsADirectoryError" | .fileExists => "FileExistsError"
 
 def Conflict.show : Conflict → String
   | .unversionedParent p => s!"up:{p}"
